@@ -3,14 +3,16 @@ package message
 //vsym:pkg github.com/theparanoids/ysshra/message
 //vsym:entry H15_legacy_roundtrip
 //vsym:entry H15_legacy_total
+//vsym:entry H15_legacy_booleans
 //vsym:entry H15_json
 //vsym:model encoding/json.Marshal m15Marshal
 //vsym:model encoding/json.Unmarshal m15Unmarshal
 //vsym:replay same-harness
-//vsym:expect-cover C15.legacy.roundtrip C15.legacy.with-touchless-sudo C15.legacy.total-ok C15.legacy.total-error C15.json.roundtrip C15.json.missing-field C15.json.null C15.marshal.refused
+//vsym:expect-cover C15.legacy.roundtrip C15.legacy.boolean-true C15.legacy.boolean-false C15.legacy.with-touchless-sudo C15.legacy.total-ok C15.legacy.total-error C15.json.roundtrip C15.json.missing-field C15.json.null C15.marshal.refused
 //vsym:bound H15_legacy_roundtrip: interface version any int below 7; client version, user, host of 1..2 symbolic printable ASCII bytes (0x21-0x7e) without '@'; three symbolic booleans; touchless-sudo absent or present with hosts of 0..2 such bytes and time in {-99,-1,0,1,999,2^31,-2^31-1,2^40}
 //vsym:bound H15_legacy_total: arbitrary text of 0..5 (thorough 0..7) symbolic bytes, and structured texts with duplicate keys, empty values, '=' in values and stray spaces
-//vsym:bound H15_json: interface version any int >= 7; every string field 0..1 symbolic bytes; extension map of 0..1 entries; decoder result for other input: error, null, or an arbitrary object
+//vsym:bound H15_legacy_booleans: HardKey / Touch2SSH / IsFirefighter tokens with every Go boolean literal, ten other spellings, every 1-byte and every 4-byte printable value, before or after the req token
+//vsym:bound H15_json: interface version any int >= 7; every string field 0..1 symbolic bytes; extension map of 0..1 entries; decoder result for other input: error, null, or an arbitrary object (with or without surrounding white space)
 //vsym:assume encoding/json is modelled by its contract (Marshal records the value, Unmarshal of that text restores it; other input: error when the first byte cannot start a JSON value, else error / null / arbitrary object); strings.TrimSpace over symbolic bytes is executed from source under the stated ASCII bound
 
 import (
@@ -41,6 +43,13 @@ func m15Copy(a *Attributes) *Attributes {
 }
 
 func m15Marshal(v any) ([]byte, error) {
+	// encoding hooks of the value's type are honoured as encoding/json does
+	if m, ok := v.(json.Marshaler); ok {
+		return m.MarshalJSON()
+	}
+	if w := vRetype(v, (*Attributes)(nil)); w != nil {
+		v = w
+	}
 	a, ok := v.(*Attributes)
 	if !ok {
 		panic("m15Marshal: unexpected type")
@@ -56,6 +65,14 @@ func m15StartsJSON(b byte) bool {
 }
 
 func m15Unmarshal(data []byte, v any) error {
+	// decoding hooks of the destination type are honoured as encoding/json does;
+	// inside such a hook the destination is usually a method-less twin type
+	if u, ok := v.(json.Unmarshaler); ok {
+		return u.UnmarshalJSON(data)
+	}
+	if w := vRetype(v, (*Attributes)(nil)); w != nil {
+		v = w
+	}
 	// the destination is either a *Attributes or (as the code once did) a **Attributes
 	var p *Attributes
 	pp, isPP := v.(**Attributes)
@@ -154,6 +171,67 @@ func H15_legacy_roundtrip() {
 		vAssert(ok && isStr && vEqString(sv, tok[i+1:]), "C15.legacy-tokens-mirrored-in-extensions")
 	}
 	vReach("C15.legacy.roundtrip")
+}
+
+// H15_legacy_booleans: a legacy request asks for a hardware key (touch to
+// SSH, firefighter) exactly when the token's value is a true boolean literal
+// in Go's spelling (1, t, T, TRUE, true, True) - the spelling the decoder of
+// the extension map (ExtendedAttrBool) accepts for the same mirrored token.
+func H15_legacy_booleans() {
+	keys := []string{"HardKey", "Touch2SSH", "IsFirefighter"}
+	key := keys[vChoose(len(keys), "key")]
+	trues := []string{"1", "t", "T", "TRUE", "true", "True"}
+	falses := []string{"0", "f", "F", "FALSE", "false", "False", "", "yes", "tRUE", "01"}
+	var val string
+	var want bool
+	switch vChoose(4, "value-kind") {
+	case 0:
+		val, want = trues[vChoose(len(trues), "true-spelling")], true
+	case 1:
+		val, want = falses[vChoose(len(falses), "false-spelling")], false
+	case 2:
+		val = vNondetString("value", 1)
+		h15Printable(val, true)
+		want = vOr(val[0] == '1', vOr(val[0] == 't', val[0] == 'T'))
+	case 3:
+		val = vNondetString("value", 4)
+		h15Printable(val, true)
+		want = vOr(vEqString(val, "TRUE"), vOr(vEqString(val, "true"), vEqString(val, "True")))
+	}
+	text := "req=u@h " + key + "=" + val
+	if vChoose(2, "token-first") == 1 {
+		text = key + "=" + val + " req=u@h"
+	}
+	var a *Attributes
+	var err error
+	crashed := vCatch(func() { a, err = Unmarshal(text) })
+	vAssert(!crashed, "C15.legacy-parser-never-crashes")
+	vAssert(!crashed && err == nil && a != nil && a.TouchlessSudo != nil, "C15.legacy-boolean-text-decodes")
+	if crashed || err != nil || a == nil || a.TouchlessSudo != nil == false {
+		return
+	}
+	got := a.HardKey
+	switch key {
+	case "Touch2SSH":
+		got = a.Touch2SSH
+	case "IsFirefighter":
+		got = a.TouchlessSudo.IsFirefighter
+	}
+	vAssert(vIff(got, want), "C15.legacy-boolean-follows-the-boolean-literal:"+key)
+	// the other two stay false
+	n := 0
+	if a.HardKey {
+		n++
+	}
+	if a.Touch2SSH {
+		n++
+	}
+	if a.TouchlessSudo.IsFirefighter {
+		n++
+	}
+	vAssert(n <= 1, "C15.legacy-boolean-sets-only-its-own-field")
+	vCover(got, "C15.legacy.boolean-true")
+	vCover(!got, "C15.legacy.boolean-false")
 }
 
 func H15_legacy_total() {
@@ -268,6 +346,8 @@ func H15_json() {
 			bs, _ := json.Marshal(obj)
 			text = string(bs)
 		}
+		// JSON text may be surrounded by white space (RFC 8259 section 2)
+		text = []string{"", " ", "\n", "\t\r\n"}[vChoose(4, "leading-space")] + text + []string{"", " \n"}[vChoose(2, "trailing-space")]
 	}
 	vFact("decoder-outcome", m15Other)
 	var c *Attributes
